@@ -101,11 +101,13 @@ def level_recipe(triple, rng, nmods=None, module_override=None, ovh_override=Non
             mods.append(m)
         if any(m is None for m in mods):
             continue
+        # the inserts of a level are often products of the level below, which all carry the default id unless one was asked for
+        same_id = rng.choice(["assembly", "<unknown id>"]) if (len(mods) >= 2 and rng.random() < 0.35) else None
         return {"fn": "level", "triple": list(triple), "enz": classes.enz_spec(this), "nenz": classes.enz_spec(nxt),
                 "vcls": vspec, "mcls": [mspec] * len(mods), "ncls": nspec,
                 "vector": {"id": "vec", "seq": gen.rotate(vec, rng.randrange(len(vec)))},
                 "modules": [dict(module_override) if (isinstance(module_override, dict) and i == 0) else
-                            {"id": "ins%d" % (i + 1), "seq": gen.rotate(m, rng.randrange(len(m)))} for i, m in enumerate(mods)],
+                            {"id": ("ins%d" % (i + 1)) if not same_id else same_id, "seq": gen.rotate(m, rng.randrange(len(m)))} for i, m in enumerate(mods)],
                 "id": "lvl%d" % rng.randrange(100000), "name": "lvl"}
     return None
 
